@@ -9,6 +9,9 @@
 //     simultaneous connections; oracle: the child stays alive, every connection is answered or closed
 //     within the scaled timeouts, a fresh well-behaved gortsplib.Client then plays, and afterwards
 //     goroutines / tables / callbacks are back at the baseline.
+//   - slow-reader stage (slow.go): a peer that plays over interleaved TCP and stops reading while the
+//     stream is fed with bursts of large packets, so that the session's writer blocks in a socket write;
+//     requests / garbage / closes at chosen points of the write timeout; oracle-only, one child per scenario.
 package main
 
 import (
@@ -855,7 +858,7 @@ func main() {
 	defer ctx.Finish()
 	scenLog, _ = os.Create(ctx.Out + "/scenarios.txt")
 	defer scenLog.Close()
-	ctx.Rule("ledger scenarios: valid RTSP conversations (play TCP/UDP/multicast, record TCP/UDP; plain, WebSocket and HTTP-tunnel carriers; 1-2 connections) mutated at grammar level (steps dropped/duplicated/swapped/spliced/truncated, frames / responses / garbage injected, header fields deleted / duplicated / randomised, Transport lists, SDP bodies, URLs, Session references) and played step by step with a probe after each step; non-trivial = distinct parsed-request case line. blast: byte-level mutations (truncation at sampled or every offset, flips, insertions, splices), tunnel handshakes and frames on up to 48 simultaneous connections; every server configuration = handler subset x UDP x multicast (x TLS in the thorough tier)")
+	ctx.Rule("ledger scenarios: valid RTSP conversations (play TCP/UDP/multicast, record TCP/UDP; plain, WebSocket and HTTP-tunnel carriers; 1-2 connections) mutated at grammar level (steps dropped/duplicated/swapped/spliced/truncated, frames / responses / garbage injected, header fields deleted / duplicated / randomised, Transport lists, SDP bodies, URLs, Session references) and played step by step with a probe after each step; non-trivial = distinct parsed-request case line. blast: byte-level mutations (truncation at sampled or every offset, flips, insertions, splices), tunnel handshakes and frames on up to 48 simultaneous connections; every server configuration = handler subset x UDP x multicast (x TLS in the thorough tier). slow-reader stage (oracle-only): a peer that PLAYs over interleaved TCP and stops reading, bursts of large packets until the session's writer is blocked in a socket write, then one of 19 actions (PAUSE, TEARDOWN, PLAY, GET_PARAMETER, OPTIONS, SETUP, garbage, half a request, frames, close, reset, silence, ...) at a delay of 0-220 % of WriteTimeout, with / without OnPause handler, 1-2 medias, with / without a well-behaved reader on another connection, with / without reading again; a deterministic corpus plus random scenarios (thorough: a sweep of the delay in steps of 10 % for every action)")
 
 	if lines := ctx.ReplayLines(); lines != nil {
 		for _, l := range lines {
